@@ -25,7 +25,7 @@ META = {
 }
 
 plan = e1.plan
-EXTRA = ['range_int', 'range_float', 'vol_int', 'vol_str', 'vol_tuple', 'vol_list', 'vol_range', 'tag_int', 'hasconv']
+EXTRA = ['range_int', 'range_float', 'vol_int', 'vol_str', 'vol_tuple', 'vol_list', 'vol_range', 'hasconv']
 
 
 def expressions(tier):
@@ -38,6 +38,8 @@ def expressions(tier):
         out.append(['struct', ['k', leaf]])
         out.append(['union', leaf, 'none'])
         out.append(['tuple', 'int', leaf])
+    # (convert reads a value's OWN serialised form: of the tagged unions only the internal layout is in scope, see the statement)
+    out += [e for e in grammar.tagged_expressions() if e1.leaves_of(e) & set(grammar.TAGGED) <= {'tag_int'}]
     return out
 
 
